@@ -558,6 +558,10 @@ def write_evidence(prop, tier, seed, level, coverage, wall_s, violations, assump
     ev = {'property_id': prop, 'tier': tier, 'seed': seed, 'level': level, 'coverage': coverage,
           'assumptions': assumptions, 'wall_s': round(wall_s, 2), 'violations': violations}
     p = os.path.join(VERIF, 'evidence', prop + '.json')
+    if os.environ.get('PARMCB_REPO') and os.path.realpath(os.environ['PARMCB_REPO']) != os.path.realpath('/repo'):
+        # a run against a scratch tree (seeded-change testing) must not overwrite the evidence of /repo
+        os.makedirs(os.path.join(VERIF, 'evidence', 'scratch'), exist_ok=True)
+        p = os.path.join(VERIF, 'evidence', 'scratch', prop + '.json')
     with open(p + '.tmp', 'w') as f:
         json.dump(ev, f, indent=1, default=str)
     os.replace(p + '.tmp', p)
